@@ -99,7 +99,8 @@ def gen_eml_tree(rng, counter, depth, is_root, in_class):
     pre-escaped entity spellings and of para tags; no prefixes/extras/tails (the exporter
     ignores them)."""
     counter[0] += 1
-    name = "eml" if is_root and rng.random() < 0.5 else X.rand_name(rng)
+    # 'eml' also below the root: the renaming and the boilerplate belong to level 0 only
+    name = "eml" if rng.random() < (0.5 if is_root else 0.1) else X.rand_name(rng)
     sn = {"id": "n%d" % counter[0], "name": name, "content": None, "tail": None, "prefix": None,
           "attrs": gen_attrs(rng), "extras": [], "nsmap": [], "kids": []}
     nk = 0
@@ -137,7 +138,40 @@ def gen_eml_tree(rng, counter, depth, is_root, in_class):
 
 
 def eml_content_ok(c):
+    """exactly the quantifier's exclusions: the three pre-escaped spellings and the inline para tags"""
     return all(x not in c for x in ("&amp;", "&lt;", "&gt;", "<para>", "</para>"))
+
+
+def eml_in_class(sn):
+    """class of export.to_xml on a snapshot whose names come from the legal pools"""
+    for s in flatten(sn):
+        if s["content"] is not None and (s["kids"] or not eml_content_ok(s["content"])):
+            return False
+        if any(k == "xmlns" or ":" in k for k, _ in s["attrs"]):
+            return False
+    return True
+
+
+def big_tree(rng, eml):
+    """one node with more than 256 children and one with more than 256 attributes"""
+    kids = []
+    for i in range(300):
+        kids.append({"id": "b%d" % i, "name": X.rand_name(rng), "content": (gen_content(rng) if i % 7 == 0 else None),
+                     "tail": None, "prefix": None, "attrs": ([["i", str(i)]] if i % 5 == 0 else []), "extras": [], "nsmap": [], "kids": []})
+    attrs = []
+    seen = set()
+    while len(attrs) < 300:
+        k = X.rand_name(rng) + "%d" % len(attrs)
+        if k not in seen:
+            seen.add(k)
+            attrs.append([k, X.rand_text(rng, attr=True, maxlen=4)])
+    kids[150]["attrs"] = attrs
+    if eml:
+        for k in kids:
+            if k["content"] is not None and not eml_content_ok(k["content"]):
+                k["content"] = "x"
+    return {"id": "big", "name": "eml" if eml else "root", "content": None, "tail": None, "prefix": None,
+            "attrs": [["n", "300"]], "extras": [], "nsmap": [], "kids": kids}
 
 
 # ------------------------------------------------------------------ the statement, on the implementation
@@ -209,9 +243,10 @@ BOILER_ATTR = ["{http://www.w3.org/2001/XMLSchema-instance}schemaLocation",
 
 def sim_eml(tag, attrib, text, kids, sn, root, path="/"):
     here = path + sn["name"]
-    local = tag[tag.rfind("}") + 1:]
-    if local != sn["name"]:
-        return f"{here}: name {local!r}"
+    # only an eml ROOT is written eml:eml (in the EML namespace); every other element is unqualified
+    want_tag = "{https://eml.ecoinformatics.org/eml-2.2.0}eml" if root and sn["name"] == "eml" else sn["name"]
+    if tag != want_tag:
+        return f"{here}: element name {tag!r} != {want_tag!r}"
     want = [list(kv) for kv in sn["attrs"]]
     if root and sn["name"] == "eml":
         want = want + [BOILER_ATTR]
@@ -282,11 +317,16 @@ def all_nodes(n):
 
 
 def node_path(root, n):
-    path = []
-    while n is not root:
-        path.insert(0, n.parent.children.index(n))
-        n = n.parent
-    return path
+    """child indices from root to n, by search (parent links may be missing after direct list edits)"""
+    def go(x, acc):
+        if x is n:
+            return acc
+        for i, c in enumerate(x.children):
+            r = go(c, acc + [i])
+            if r is not None:
+                return r
+        return None
+    return go(root, [])
 
 
 def edit_in_place(rng, root, tag):
@@ -296,8 +336,20 @@ def edit_in_place(rng, root, tag):
     for i in range(rng.randrange(1, 4)):
         n = rng.choice(list(all_nodes(root)))
         where = node_path(root, n)
-        r = rng.randrange(9)
-        if r == 0:
+        r = rng.randrange(12)
+        if r == 9:
+            k, v = X.rand_name(rng), X.rand_text(rng, attr=True)
+            n.attributes[k] = v                       # direct mutation through the exposed dict
+            ops.append(["attributes[k]=v", where, k, v])
+        elif r == 10:
+            pfx, uri = rng.choice(PREFIXES), rng.choice(X.URIS)
+            n.nsmap[pfx] = uri                        # shared maps change for every node sharing them
+            ops.append(["nsmap[k]=v", where, pfx, uri])
+        elif r == 11:
+            c = Node(X.rand_name(rng), id="%s-a%d" % (tag, i), content=gen_content(rng))
+            n.children.append(c)
+            ops.append(["children.append", where, c.name, c.content])
+        elif r == 0:
             n.content = gen_content(rng)
             ops.append(["content", where, n.content])
         elif r == 1 and n is not root:
@@ -343,6 +395,8 @@ def in_general_class(sn, parent_keys=None):
     ns = dict(sn["nsmap"])
     if any(k not in ns for k in parent_keys):
         return False
+    if any(u in ("", X.XML_NS, "http://www.w3.org/2000/xmlns/") or k in ("xml", "xmlns") for k, u in sn["nsmap"]):
+        return False
     if sn["prefix"] is not None and sn["prefix"] not in ns:
         return False
     ex = [X.expand(k, ns) for k, _ in sn["extras"]]
@@ -359,13 +413,13 @@ def history_phase(ctx, io, export, thorough):
     interleaved with other trees / the other exporter / an import, a fresh interpreter in another
     order, and every optional parameter. Returns extra (B) cases for the parameterised models."""
     rng = ctx.rng
-    n_hist = 300 if thorough else 70
+    n_hist = 300 if thorough else 55
     alive = []          # (node, first general output, first eml output, snapshot) kept across the phase
     pcases, pwants, pmeta = [], [], []      # run_to_xml_p
     lcases, lwants, lmeta = [], [], []      # run_eml_l
     for i in range(n_hist):
         sn0 = gen_tree(rng, [0], 3, None, True, True) if rng.random() < 0.7 else gen_eml_tree(rng, [0], 3, True, False)
-        node = NL.build(sn0, attach=False)
+        node = NL.build(X.freshen(sn0), attach=False)
         sn = NL.snapshot(node)
         o1 = io.to_xml(node)
         e1 = export.to_xml(node)
@@ -423,7 +477,7 @@ def history_phase(ctx, io, export, thorough):
         sn2 = NL.snapshot(node)
         o2 = io.to_xml(node)
         e2 = export.to_xml(node)
-        fresh = NL.build(sn2, attach=False)
+        fresh = NL.build(X.freshen(sn2), attach=False)
         o2f = io.to_xml(fresh)
         e2f = export.to_xml(fresh)
         rep2 = {"kind": "history", "tree_before": X.strip_ids(sn), "edits": ops, "tree_after": X.strip_ids(sn2)}
@@ -466,8 +520,8 @@ def run(ctx):
     from metapype.eml import export
     built = ctx.build(extra_targets=["theories/Model/XmlRun.v"])
     thorough = ctx.tier == "thorough"
-    n_general = 1500 if thorough else 210
-    n_eml = 800 if thorough else 140
+    n_general = 1500 if thorough else 180
+    n_eml = 800 if thorough else 110
     n_corrupt = 1500 if thorough else 150
     ctx.extra["rule"] = ("random trees (<= 9 nodes, depth <= 3): names from an XML-legal pool incl. non-ASCII, prefixes bound in the node's "
                          "nsmap, child nsmaps containing the parent's prefixes (re-declared / added / reordered), qualified attributes incl. "
@@ -487,37 +541,50 @@ def run(ctx):
 
     gen_cases, gen_wants, gen_meta = [], [], []
     docs = []          # (doc, origin) to be parsed by xparse in Coq
-    for i in range(n_general):
+    for i in range(n_general + 1):
         closed = ctx.rng.random() < 0.85
-        sn = gen_tree(ctx.rng, [0], 3, None, True, closed)
-        node = NL.build(sn, attach=not closed)
+        if i == n_general:
+            sn, closed = big_tree(ctx.rng, False), True      # > 256 children, > 256 attributes
+        else:
+            sn = gen_tree(ctx.rng, [0], 3, None, True, closed)
+            if ctx.rng.random() < 0.04:
+                victims = [s for s in flatten(sn) if s["nsmap"]]
+                if victims:
+                    ctx.rng.choice(victims)["nsmap"][0][1] = ""      # falsy namespace name: outside the class, inside the model
+        node = NL.build(X.freshen(sn), attach=not closed)
         sn = NL.snapshot(node)                      # the tree as the library holds it
         out = io.to_xml(node)
         NL.reset_store()
         nontrivial = any(x in out for x in ("&", "=", "xmlns"))
         ctx.case(out, nontrivial)
         ctx.count("general:nodes=%d" % min(len(flatten(sn)), 9))
-        d = check_general(ctx, sn, out, i)
-        check_reimport(ctx, sn, out)
+        if in_general_class(sn):
+            d = check_general(ctx, sn, out, i)
+            check_reimport(ctx, sn, out)
+        else:
+            ctx.count("general:out-of-class")
         gen_cases.append(NL.coq_ftree(sn))
         gen_wants.append(cstr(out))
         gen_meta.append({"tree": X.strip_ids(sn), "output": out})
-        docs.append((out, "metapype_io.to_xml"))
+        if in_general_class(sn) and i < n_general:
+            docs.append((out, "metapype_io.to_xml"))
         ctx.sample({"tree": X.strip_ids(sn), "metapype_io.to_xml": out}, limit=3)
 
     eml_cases, eml_wants, eml_meta = [], [], []
-    for i in range(n_eml):
+    for i in range(n_eml + 1):
         in_class = ctx.rng.random() < 0.6
-        sn = gen_eml_tree(ctx.rng, [0], 3, True, in_class)
-        node = NL.build(sn, attach=False)
+        sn = big_tree(ctx.rng, True) if i == n_eml else gen_eml_tree(ctx.rng, [0], 3, True, in_class)
+        node = NL.build(X.freshen(sn), attach=False)
         before = NL.snapshot(node)
         out = export.to_xml(node)
         NL.reset_store()
+        in_class = eml_in_class(sn)                 # decided by the class predicate, not by the generator's intent
         ctx.case(out, any(x in out for x in ("&", "=")))
         ctx.count("eml:in_class=%s" % in_class)
         if in_class:
             check_eml(ctx, sn, out)
-            docs.append((out, "export.to_xml"))
+            if i < n_eml:
+                docs.append((out, "export.to_xml"))
         eml_cases.append(NL.coq_ftree(sn))
         eml_wants.append(cstr(out))
         eml_meta.append({"tree": X.strip_ids(sn), "output": out})
